@@ -19,7 +19,7 @@ sys.path.insert(0, VERIF)
 sys.path.insert(0, os.path.join(VERIF, "bin"))
 sys.dont_write_bytecode = True
 
-from selftest.mutants import MODULES, sites, apply, mutate, sites2, mutate2, sites3, mutate3      # noqa: E402
+from selftest.mutants import MODULES, sites, apply, mutate, sites2, mutate2, sites3, mutate3, sites4, mutate4      # noqa: E402
 
 
 def gen(out_path, repo="/repo"):
@@ -51,6 +51,15 @@ def gen(out_path, repo="/repo"):
                 if new_src is None:
                     continue
                 muts.append({"id": "%s~%d" % (mod, i), "module": mod, "kind": s_.kind, "line": 0, "desc": s_.desc, "source": new_src})
+    if os.environ.get("SWEEP_FAMILY") == "4":
+        muts = []
+        for mod in MODULES:
+            ss = sites4(ast.parse(sources[mod]))
+            for i, s_ in enumerate(ss):
+                new_src = mutate4(sources[mod], index=i)
+                if new_src is None:
+                    continue
+                muts.append({"id": "%s^%d" % (mod, i), "module": mod, "kind": s_.kind, "line": 0, "desc": s_.desc, "source": new_src})
     json.dump(muts, open(out_path, "w"))
     print("mutants:", len(muts))
 
